@@ -106,10 +106,13 @@ func (c *Config) YAML() string {
 		if s.DialogTimeout > 0 {
 			fmt.Fprintf(&b, "  dialogTimeout: %d\n", s.DialogTimeout)
 		}
+		// every spelling the configuration accepts for on / off
+		on := []string{"true", "yes", "1", "on", "t", "y", "True", "YES", "On"}
+		off := []string{"false", "no", "0", "off", "n", "False"}
 		if s.KeepNextHopRoute {
-			b.WriteString("  keepNextHopRoute: \"true\"\n")
+			fmt.Fprintf(&b, "  keepNextHopRoute: %q\n", on[s.Index%len(on)])
 		} else {
-			b.WriteString("  keepNextHopRoute: \"false\"\n")
+			fmt.Fprintf(&b, "  keepNextHopRoute: %q\n", off[s.Index%len(off)])
 		}
 		b.WriteString("  listens:\n")
 		for _, l := range s.Listens {
